@@ -327,3 +327,23 @@ def accept_key(kind, detail, vname):
     words = [w for w in msg.split() if len(w) > 2][:4]
     return 'rejected:%s:%s' % (cls, ' '.join(words))
   return '%s:%s' % (kind, vname)
+
+
+def replay_program_rows(rep, replay, as_set=False):
+  """Replay of a stream violation that carries its own oracle: {'program_text', 'predicate', 'expected_rows'}.
+  Returns True when the replay file is of that kind (and has been handled)."""
+  with open(replay) as f:
+    rp = json.load(f)
+  if 'program_text' not in rp or 'predicate' not in rp or 'gen_seed' in rp or not isinstance(rp.get('expected_rows'), list):
+    return False
+  st, a, b = R.logica_run.run_pred(rp['program_text'], rp['predicate'], time_limit=60.0)
+  rows = sorted(tuple(x) for x in b) if st == 'ok' else None
+  want = sorted(tuple(x) for x in rp['expected_rows'])
+  if as_set and rows is not None:
+    rows, want = sorted(set(rows)), sorted(set(want))
+  ok = st == 'ok' and rows == want
+  print('replay: %s %s -> %s' % (rp['predicate'], st, 'rows as expected' if ok else 'DIFFERENT from the expected rows'))
+  if not ok:
+    rep.violation(rp.get('key', 'replay'), dict(rp, observed=[st, rows if rows is not None else str(a)[:300]]))
+  rep.coverage.update({'evaluations': 1, 'distinct_nontrivial': 1, 'rule': 'replay of one recorded program with its expected rows'})
+  return True
